@@ -115,5 +115,17 @@ def untrustedOut (N : Net Addr Prefix) (cfg : Cfg Prefix) (c : Conn) (dF dP dH :
              if cfg.omitXFP && !dP then some none else some (some [protoOf c]),
              if cfg.omitXFH && !dH then some none else some (some [c.host])⟩⟩
 
+/-- a field that held nil is simply absent once the header map has been copied value by value
+    (either way the field is not sent) -/
+def dropNil : Option (Option (List Bytes)) → Option (Option (List Bytes))
+  | some (some (v :: vs)) => some (some (v :: vs))
+  | _ => none
+
+/-- what the configured request header operations do to the three forwarding fields -/
+def opsFwd : Ops → Fwd → Fwd
+  | .none, f => f
+  | .setOther, f => ⟨dropNil f.xff, dropNil f.xfp, dropNil f.xfh⟩
+  | .delXFH, f => ⟨dropNil f.xff, dropNil f.xfp, none⟩     -- the operator deletes X-Forwarded-Host
+
 end
 end CaddyModel.C10
